@@ -250,6 +250,7 @@ func init() {
 	registerLab(&LabProp{
 		ID:         "C03",
 		AllU:       true,
+		OrderModes: []proto.Mode{memoMode},
 		Variants:   []lab.Variant{lab.V0},
 		NativeFuzz: 120,
 		FuzzOracle: "tokens",
@@ -335,7 +336,8 @@ func init() {
 					return 1 + b2i(n >= 2)*2 + b2i(n >= 2 && r.Stats.DiscardedTokens > 0)*2 + b2i(len(r.XTrace) > n)
 				})}
 		},
-		SkipCase: func(cs *lab.Case) bool { return cs.G.Count(gram.KAct) == 0 },
+		SkipCase:   func(cs *lab.Case) bool { return cs.G.Count(gram.KAct) == 0 },
+		OrderModes: []proto.Mode{memoMode},
 		Modes: func(c *drv.Ctx, pt *Point, v lab.Variant) []proto.Mode {
 			if !pt.Ref.OK {
 				return nil
@@ -398,7 +400,7 @@ func init() {
 				} else {
 					for i, t := range o.Trace {
 						w := want[i]
-						if t.ID != "a"+strconv.Itoa(w.ID) || t.Text != w.Text || t.B != w.B || t.E != w.E {
+						if t.ID != "a"+strconv.Itoa(w.ID) || string(t.Text) != w.Text || t.B != w.B || t.E != w.E {
 							what = fmt.Sprintf("action #%d: got %s text=%q begin=%d end=%d, want a%d text=%q begin=%d end=%d", i, t.ID, t.Text, t.B, t.E, w.ID, w.Text, w.B, w.E)
 							break
 						}
@@ -431,6 +433,7 @@ func init() {
 				})}
 		},
 		ReuseModes: []proto.Mode{printMode},
+		OrderModes: []proto.Mode{printMode},
 		Modes: func(c *drv.Ctx, pt *Point, v lab.Variant) []proto.Mode {
 			if !pt.Ref.OK {
 				return nil
@@ -497,9 +500,10 @@ func init() {
 		Chunks:     func(c *drv.Ctx) int { return c.Pick(1, 8) },
 		Opts: func(c *drv.Ctx) lab.CollectOpts {
 			return lab.CollectOpts{N: c.Pick(80, 250), Profiles: []string{"backtracky", "backtracky", "plain", "deep", "switchy"},
-				Inputs: c.Pick(24, 40), Hostile: true,
+				Inputs: c.Pick(24, 40), Hostile: true, Huge: 2,
 				Score: scoreBy(func(r *refpeg.Result, in []rune) int {
-					return b2i(r.Stats.Revisits > 0)*2 + b2i(r.Stats.RevisitSuccess > 0)*2 + b2i(r.Stats.RevisitInLookahead > 0) + b2i(!r.OK && r.ErrTok != nil)
+					return b2i(r.Stats.Revisits > 0)*2 + b2i(r.Stats.RevisitSuccess > 0)*2 + b2i(r.Stats.RevisitInLookahead > 0) + b2i(!r.OK && r.ErrTok != nil) +
+						b2i(r.Stats.Completed > 1100 && r.Stats.RevisitSuccess > 0)*4
 				})}
 		},
 		SkipCase:   func(cs *lab.Case) bool { return cs.G.Count(gram.KState) > 0 },
@@ -516,11 +520,41 @@ func init() {
 			var ms []Mismatch
 			for _, v := range c06Variants {
 				a, b := obsOf(pt, v.Name, memoMode), obsOf(pt, v.Name, noMemoMode)
-				if a == nil || b == nil || a.NilRule {
+				if a == nil || a.NilRule {
+					continue
+				}
+				if b == nil {
+					// too expensive without the memo table: the memoised run is still held
+					// against PEG semantics
+					if pt.Ref.Budget || pt.Ref.Unspecified {
+						continue
+					}
+					c.Stats.Eval()
+					c.Stats.Class("memoised_run_compared_with_reference_only")
+					what := ""
+					switch {
+					case a.Panic != "":
+						what = "memoised parser panicked: " + a.Panic
+					case a.OK != pt.Ref.OK:
+						what = fmt.Sprintf("memoised parser ok=%v, PEG semantics ok=%v", a.OK, pt.Ref.OK)
+					case v.Name == "v0" && a.OK && !sameToks(a.Tokens, refpeg.Tokens(pt.Ref.Root)):
+						what = "tokens of the memoised parser differ from the derivation record"
+					}
+					if what != "" {
+						ms = append(ms, Mismatch{What: what, Variant: v.Name, Mode: memoMode})
+					}
 					continue
 				}
 				c.Stats.Eval()
 				st := pt.Ref.Stats
+				if v.Name == "v0" && pt.Ref.OK {
+					if n := len(refpeg.Tokens(pt.Ref.Root)); n > 1024 {
+						c.Stats.Class("accepted_with_more_than_1024_tokens")
+						if st.RevisitSuccess > 0 {
+							c.Stats.Class("accepted_with_more_than_1024_tokens_and_a_replayed_success")
+						}
+					}
+				}
 				if st.Revisits > 0 && c.Stats.Nontrivial(pt.key(v.Name)) {
 					if st.RevisitSuccess > 0 {
 						c.Stats.Class("nt_revisit_of_successful_application")
@@ -563,11 +597,13 @@ func init() {
 	// ------------------------------------------------------------------ C07
 	c07Variants := []lab.Variant{lab.V0, lab.N0, lab.N1, lab.N2, lab.N3}
 	registerLab(&LabProp{
-		ID:         "C07",
-		Variants:   c07Variants,
-		NativeFuzz: 120,
-		FuzzOracle: "verdict",
-		Chunks:     func(c *drv.Ctx) int { return c.Pick(1, 8) },
+		ID:            "C07",
+		Variants:      c07Variants,
+		ReuseModes:    []proto.Mode{memoMode},
+		ReuseVariants: []lab.Variant{lab.N0, lab.N3},
+		NativeFuzz:    120,
+		FuzzOracle:    "verdict",
+		Chunks:        func(c *drv.Ctx) int { return c.Pick(1, 8) },
 		Opts: func(c *drv.Ctx) lab.CollectOpts {
 			return lab.CollectOpts{N: c.Pick(64, 200), Profiles: []string{"actiony", "backtracky", "switchy", "actiony", "liney"},
 				Inputs: c.Pick(24, 36), Hostile: true,
@@ -627,7 +663,7 @@ func init() {
 							if !hasCap {
 								wt = ""
 							}
-							if t.ID != "a"+strconv.Itoa(w.ID) || t.Text != wt {
+							if t.ID != "a"+strconv.Itoa(w.ID) || string(t.Text) != wt {
 								what = fmt.Sprintf("inline action #%d of %q: got %s text=%q, want a%d text=%q", i, v.Flags(), t.ID, t.Text, w.ID, wt)
 								break
 							}
@@ -699,7 +735,7 @@ func init() {
 		Variants: lab.AllVariants,
 		Chunks:   func(c *drv.Ctx) int { return c.Pick(1, 8) },
 		Opts: func(c *drv.Ctx) lab.CollectOpts {
-			return lab.CollectOpts{N: c.Pick(72, 160), Profiles: []string{"switchy", "plain", "switchy", "liney", "deep", "switchy", "backtracky"},
+			return lab.CollectOpts{N: c.Pick(72, 160), Profiles: []string{"switchy", "plain", "switchy", "liney", "deep", "actiony", "switchy", "backtracky"},
 				Inputs: c.Pick(12, 20), Hostile: true, Long: true, MaxRune: true}
 		},
 		Modes: func(c *drv.Ctx, pt *Point, v lab.Variant) []proto.Mode {
@@ -754,6 +790,24 @@ func init() {
 						what = checkTokenShape(o.Tokens, n, pt.Case.G.Rules[pt.Entry].Name)
 						if what == "" && v.Name == "v0" && pt.Ref.OK && !pt.Ref.Budget && !sameToks(o.Tokens, refpeg.Tokens(pt.Ref.Root)) {
 							what = fmt.Sprintf("tokens [%s] do not slice the rune sequence the way the derivation does [%s]", toksOf(o.Tokens), refToksOf(refpeg.Tokens(pt.Ref.Root)))
+						}
+						for _, t := range o.Trace {
+							// what an action is handed is the rune sequence sliced by the capture's offsets
+							if what != "" {
+								break
+							}
+							c.Stats.Class("action_text_checked_against_rune_slice")
+							if t.B < t.E && !utf8.ValidString(pt.Input) && len(pt.Input) == len(pt.Runes) {
+								c.Stats.Class("action_text_over_input_of_single_invalid_bytes")
+								if strings.ContainsRune(string(pt.Runes[t.B:t.E]), 0xFFFD) {
+									c.Stats.Class("action_text_covering_an_invalid_byte")
+								}
+							}
+							if !(0 <= t.B && t.B <= t.E && t.E <= n) {
+								what = fmt.Sprintf("action %s is handed begin=%d end=%d, outside the input of %d runes", t.ID, t.B, t.E, n)
+							} else if want := string(pt.Runes[t.B:t.E]); string(t.Text) != want {
+								what = fmt.Sprintf("action %s is handed text %q, but the rune sequence sliced by its offsets [%d,%d) is %q", t.ID, t.Text, t.B, t.E, want)
+							}
 						}
 					case !o.NoAST && o.ErrTok != nil && !(0 <= o.ErrTok.B && o.ErrTok.B <= o.ErrTok.E && o.ErrTok.E <= n):
 						what = fmt.Sprintf("error token %v lies outside the input of %d runes", *o.ErrTok, n)
